@@ -510,3 +510,36 @@ package json
 //@   ensures[C06,C16] nothing-appended-when-rejected: result != nil ==> len(BufContent[dst]) == len(old(BufContent)[dst])
 //@   ensures[meta C06] appended: result == nil ==> BufContent == upd(old(BufContent), dst, old(BufContent)[dst] ++ compactOf(bytes(src)))
 //@   ensures[meta C06] truncated: result != nil ==> BufContent == old(BufContent)
+
+// ---- helpers of the encoder/decoder that need no reflection: swept for panics (C04), HTMLEscape's escapes (C15) ----
+//@ func HTMLEscape
+//@   requires args: dst != nil
+//@   modifies ghost(BufContent)
+//@   callsite[C15] WriteByte#3 line-separator-escape-ends-with-8-or-9: (src[rangeindex + 3] == 168 ==> arg_c == '8') && (src[rangeindex + 3] == 169 ==> arg_c == '9')
+//@   loop 1
+//@   invariant copied-up-to: 0 <= start && start <= rangeindex + 4
+
+//@ func getu4
+//@   modifies nothing
+//@   ensures[C04] needs-six-bytes: result >= 0 ==> len(s) >= 6
+//@ func isValidNumber
+//@   modifies nothing
+//@ func newline
+//@   requires args: dst != nil
+//@   modifies ghost(BufContent)
+//@ func nonSpace
+//@   modifies nothing
+//@ func foldFunc
+//@   modifies nothing
+//@ func asciiEqualFold
+//@   modifies nothing
+//@ func simpleLetterEqualFold
+//@   modifies nothing
+
+// unquoteBytes: the index arithmetic of the string unquoter (C04): r never passes the end of the input, and
+// the output buffer always has room for two more runes.
+//@ func unquoteBytes
+//@   loop 1
+//@   invariant in-range: 0 <= r && r <= len(s)
+//@   loop 2
+//@   invariant in-range: 0 <= r && r <= len(s) && 0 <= w && w + 4 <= len(b) && b != nil && fresh(b)
